@@ -121,6 +121,8 @@ func (h *serialHarness) Gen(r *Rand, tier string, clean bool) any {
 	n := r.Intn(14)
 	if h.prop == "C15" {
 		n = 1 + r.Intn(5)
+	} else if r.Chance(0.1) {
+		n = r.Range(60, 220) // an image larger than the reader's initial buffer
 	}
 	seen := map[string]bool{}
 	for i := 0; i < n; i++ {
